@@ -19,7 +19,7 @@ LEVEL_TEXT = ('partial. Lean 4 theorems about the deterministic wrappers around 
               'Distribution moments and "different seeds differ" are sampled assumption checks, not proved.')
 LEVEL_NOTE = ('partial by nature: means/variances and seed sensitivity are properties of NumPy\'s generators (unproven clauses, sampled).')
 TECHNIQUE = 'Lean 4 proof (ordered-field algebra, Int.floor, decide on a regenerated effect table) + differential correspondence on identical draws'
-GEN = ['Effects', 'PowerSpectrum']
+GEN = ['Effects', 'PowerSpectrum', 'Rule07']
 OPS = ['C18']
 RULE = ('cases: rule07_dark_current (fpn 0 / > 0, explicit seed, repeated), read noise on float/int/uint frames, power_spectrum with float/int/bool masks; shot noise (poisson/gaussian; frames 1..12 x 1..12, non-square, float and integer counts 0..1e6, frames with a negative or '
         'a > 9.22e18 entry), read noise, dark current (fpn 0 and > 0, scalar and array shapes), power_spectrum on elliptical/annular '
@@ -37,13 +37,13 @@ UNPROVEN = ['shot noise has mean and variance equal to the signal; read noise ha
             '(op st.cosmic, exact), every ray frame has the requested shape and is non-negative; cosmic_accumulation_nonneg is a theorem about that '
             'accumulation only',
             'the spectral content (PSD) of the power_spectrum surface: not claimed by the property, not checked']
-ASSUMPTIONS = ['identical-draw comparisons assume one vectorised Generator call per function in C order (shot_noise: poisson(img) / normal(img, sqrt(img)); '
+ASSUMPTIONS = ['NaN counts / NaN rates are not generated (NumPy-level behaviour, unspecified by the property)', 'identical-draw comparisons assume one vectorised Generator call per function in C order (shot_noise: poisson(img) / normal(img, sqrt(img)); '
                'read_noise: normal(0, e, shape); dark_current/rule07: lognormal(1, f, shape)) — an equivalent but differently ordered draw '
                'would be reported although the documented contract (determinism in the seed) still holds; power_spectrum and cosmic_rays '
                'are compared without any assumption on the draws',
                'Gaussian shot noise is exercised in its documented regime (counts > 1000, or exactly 0): below it the normal draw can be negative '
                '(shot_gaussian_support states the exact condition z >= -sqrt(count))',
-               'power_spectrum_rms_exact is over the non-zero pixels of the masked noise (= the mask when no noise sample is exactly 0)',
+               'power_spectrum_rms_over_mask: for a binary mask and noise that is non-zero on it (probability 1) the RMS is over the mask exactly',
                ]
 
 LAM_MAX = 9.223372006484771e+18
@@ -82,6 +82,9 @@ def generate(rng, tier):
     n = {'quick': 150, 'thorough': 3000, 'search': 600}[tier]
     out = []
     for _ in range({'quick': 8, 'thorough': 150, 'search': 300}[tier]): out.append(gen_extreme(rng))
+    for k in range({'quick': 6, 'thorough': 60, 'search': 60}[tier]):
+        out.append({'kind': 'seedforms', 'fn': ['read', 'shot', 'dark', 'power'][k % 4], 'form': ['none', 'negative', 'sequence', 'numpy-int'][(k // 4 + k) % 4],
+                    'seed': int(rng.integers(1, 2**31))})
     for k in range(n):
         t = k % 10
         seed = int(rng.integers(0, 2**31))
@@ -127,9 +130,17 @@ def generate(rng, tier):
                         'level': float([20, 400, 5000][int(rng.integers(0, 3))])})
     return out
 
-def signature(c): return ' '.join(str(c.get(k)) for k in ('kind', 'method', 'which', 'shape', 'seed', 'flavor', 'fpn', 'state'))
+def _seeded_call(lentil, c, seed):
+    D = lentil.detector
+    if c['fn'] == 'read': return D.read_noise(np.full((4, 5), 100.0), 5.0, seed=seed)
+    if c['fn'] == 'shot': return D.shot_noise(np.full((4, 5), 100.0), seed=seed)
+    if c['fn'] == 'dark': return D.dark_current(100.0, (4, 5), fpn_factor=0.3, seed=seed)
+    yy, xx = np.mgrid[0:6, 0:7]
+    return lentil.power_spectrum(((yy - 3) ** 2 + (xx - 3) ** 2 <= 9).astype(float), 1e-3, 5e-8, 3.0, 3.0, seed=seed)
+
+def signature(c): return ' '.join(str(c.get(k)) for k in ('kind', 'method', 'which', 'shape', 'seed', 'flavor', 'fpn', 'state', 'fn', 'form'))
 def nontrivial(c):
-    if c['kind'] in ('cosmic', 'moments', 'power'): return True
+    if c['kind'] in ('cosmic', 'moments', 'power', 'seedforms'): return True
     if c['kind'] == 'shot': return c['flavor'] != 'ok' or c['shape'][0] != c['shape'][1]
     if c['kind'] in ('dark', 'rule07'): return c['fpn'] > 0 or c['shape'] != 1
     return c['shape'][0] != c['shape'][1]
@@ -141,6 +152,7 @@ def tags(c):
     if c['kind'] == 'power': t.append('mask:' + c.get('mask_dtype', 'float64'))
     if c['kind'] in ('shot', 'read', 'power') and c['shape'][0] != c['shape'][1]: t.append('non-square')
     if c['kind'] == 'moments': t.append('moments:' + c['which'])
+    if c['kind'] == 'seedforms': t.append(f"seed:{c['form']}:{c['fn']}")
     return t
 
 def _mask(c):
@@ -234,6 +246,20 @@ def impl(c):
                 return {'shape': list(out.shape), 'min': float(out.min()), 'finite': bool(np.all(np.isfinite(out))), 'hits': int(np.count_nonzero(out)),
                         'out': vlib.fl(out.ravel()), 'pixel': pix, 'amount': vlib.fl(amt), 'nrays': len(rays),
                         'ray_shapes_ok': bool(all(list(r.shape) == c['shape'] for r in rays)), 'ray_min': float(min([r.min() for r in rays], default=0.0))}
+            elif k == 'seedforms':
+                form = c['form']
+                if form == 'none':
+                    a, b = _seeded_call(lentil, c, None), _seeded_call(lentil, c, None)
+                    res = {'two_unseeded_differ': bool(not np.array_equal(a, b))}
+                elif form == 'negative':
+                    try: _seeded_call(lentil, c, -c['seed']); res = {'negative_refused': False}
+                    except (ValueError, TypeError): res = {'negative_refused': True}
+                else:
+                    sd = [c['seed'], 7, 11] if form == 'sequence' else np.int64(c['seed'])
+                    sd2 = [c['seed'], 7, 12] if form == 'sequence' else np.int64(c['seed'] + 1)
+                    a, b, d = _seeded_call(lentil, c, sd), _seeded_call(lentil, c, sd), _seeded_call(lentil, c, sd2)
+                    res = {'same': bool(np.array_equal(a, b)), 'differs': bool(not np.array_equal(a, d)),
+                           'as_int': bool(form != 'numpy-int' or np.array_equal(a, _seeded_call(lentil, c, int(c['seed']))))}
             elif k == 'moments':
                 N = 200
                 lam = c['level']
@@ -378,6 +404,14 @@ def oracle(c, io):
         if io['ray_min'] < 0: return f"a ray deposited a negative charge ({io['ray_min']})"
         if io['shape'] != c['shape']: return f"cosmic-ray frame shape {io['shape']}"
         if io['min'] < 0 or not io['finite']: return f"cosmic-ray frame has negative or non-finite values (min {io['min']})"
+        return None
+    if k == 'seedforms':
+        if 'exc' in io: return f"{c['fn']} with a {c['form']} seed raised {io['msg']}"
+        if c['form'] == 'none': return None if io['two_unseeded_differ'] else 'two unseeded calls returned the same draw'
+        if c['form'] == 'negative': return None if io['negative_refused'] else 'a negative seed was accepted'
+        if not io['same']: return f"same {c['form']} seed gave different draws"
+        if not io['differs']: return f"different {c['form']} seeds gave the same draw"
+        if not io['as_int']: return 'np.int64 seed and the equal Python int gave different draws'
         return None
     # moments: assumption checks with generous margins (>= 6 sigma)
     n = io['n']; lam = c['level']
